@@ -350,8 +350,11 @@ Fixpoint int_digits (s : str) (acc : Z) (prev_digit : bool) : option Z :=
     else if (c =? underscore) && prev_digit then int_digits tl acc false
     else None
   end.
+(* int() strips ASCII whitespace and the non-ASCII spaces (U+0085, U+00A0 in latin-1), but not
+   U+001C..U+001F (which str.split()/strip() do treat as whitespace) *)
+Definition int_ws : str := [9; 10; 11; 12; 13; 32; 133; 160].
 Definition py_int (s : str) : option Z :=
-  match strip_set ws_chars s with
+  match strip_set int_ws s with
   | c :: tl => if c =? 45 then option_map Z.opp (int_digits tl 0%Z false)
                else if c =? 43 then int_digits tl 0%Z false
                else int_digits (c :: tl) 0%Z false
